@@ -154,6 +154,15 @@ fn first_token_from(
 }
 
 pub fn c10_case(rng: &mut Rng, st: &mut Stats) -> CaseOutcome {
+    c10_case_sized(rng, st, false)
+}
+
+/// The same history check on inputs of 66 000 - 300 000 bytes (offsets beyond 2^16 and 2^17).
+pub fn c10_big_case(rng: &mut Rng, st: &mut Stats) -> CaseOutcome {
+    c10_case_sized(rng, st, true)
+}
+
+fn c10_case_sized(rng: &mut Rng, st: &mut Stats, big: bool) -> CaseOutcome {
     let mut p = GenParams::default();
     p.max_nodes = 8;
     let la = if rng.chance(1, 3) { 30 } else { 0 };
@@ -163,7 +172,19 @@ pub fn c10_case(rng: &mut Rng, st: &mut Stats) -> CaseOutcome {
     }
     let has_la = cfg.modes.iter().any(|m| m.has_lookahead());
     let res_refs = cfg.all_res();
-    let input = gen_input(rng, &res_refs, &p.letters, 40);
+    let input = if big {
+        let target = *rng.pick(&[66_000usize, 70_000, 140_000, 300_000]);
+        let mut s = String::with_capacity(target + 200);
+        while s.len() < target {
+            s.push_str(&gen_input(rng, &res_refs, &p.letters, 40));
+            if rng.chance(1, 6) {
+                s.push('\n');
+            }
+        }
+        s
+    } else {
+        gen_input(rng, &res_refs, &p.letters, 40)
+    };
     let hp = HistParams {
         max_ops: 40,
         n_modes: cfg.modes.len(),
@@ -307,6 +328,9 @@ pub fn c10_case(rng: &mut Rng, st: &mut Stats) -> CaseOutcome {
                         exec_op(&mut it, op, &mut last_peek);
                     }
                     st.count("reset");
+                    if *o > 65_535 {
+                        st.count("reset_to_an_offset_beyond_65535");
+                    }
                     if *o < pos {
                         st.count("reset_backwards");
                     }
@@ -333,7 +357,12 @@ pub fn c10_case(rng: &mut Rng, st: &mut Stats) -> CaseOutcome {
         Ok(())
     });
     st.add("history_ops", executed.len() as u64);
-    st.sample(json!({"patterns": cfg.describe(), "input": input, "with_offset": start_offset, "ops": format!("{:?}", executed)}));
+    if big {
+        st.count("big_input_histories");
+        st.sample(json!({"patterns": cfg.describe(), "input_bytes": input.len(), "with_offset": start_offset, "ops": format!("{:?}", executed)}));
+    } else {
+        st.sample(json!({"patterns": cfg.describe(), "input": input, "with_offset": start_offset, "ops": format!("{:?}", executed)}));
+    }
     match r {
         Ok(Ok(())) => {
             st.nontrivial(hash_of(&(&cfg, &input, &executed, start_offset)));
@@ -350,9 +379,11 @@ pub fn c10_case(rng: &mut Rng, st: &mut Stats) -> CaseOutcome {
 pub fn c10(tier: Tier) -> i32 {
     let ctx = Ctx::new("C10", tier, "exploration");
     let n = ctx.scale(30_000, 2_000_000);
-    let res = run_cases(&ctx, 1, n, |rng, _i, st| c10_case(rng, st));
+    let mut res = run_cases(&ctx, 1, n, |rng, _i, st| c10_case(rng, st));
+    let nbig = ctx.scale(1_000, 30_000);
+    res.merge(run_cases(&ctx, 2, nbig, |rng, _i, st| c10_big_case(rng, st)));
     let report = Report::new(
-        "random multi-mode configurations (1-3 modes, with and without lookaheads, transitions), inputs of 0-40 chars, histories of 5-40 operations (next, peek_n, advance_to(end of a peeked match), set_offset to 0 / len / beyond / any character boundary forwards and backwards, set_mode), optionally started through with_offset. Oracle (metamorphic): every next() must equal the first token of a fresh uncached scanner's fresh iterator over the suffix input[pos..] in the model's mode, shifted by pos; advance_to moves the model position to the end of the peeked match (only matches that trigger no mode switch are skipped this way). Distinct by hash of (configuration, input, executed history).",
+        "stream 2: the same histories on inputs of 66 000 - 300 000 bytes (resets to offsets beyond 2^16 and 2^17). stream 1: random multi-mode configurations (1-3 modes, with and without lookaheads, transitions), inputs of 0-40 chars, histories of 5-40 operations (next, peek_n, advance_to(end of a peeked match), set_offset to 0 / len / beyond / any character boundary forwards and backwards, set_mode), optionally started through with_offset. Oracle (metamorphic): every next() must equal the first token of a fresh uncached scanner's fresh iterator over the suffix input[pos..] in the model's mode, shifted by pos; advance_to moves the model position to the end of the peeked match (only matches that trigger no mode switch are skipped this way). Distinct by hash of (configuration, input, executed history).",
     )
     .floor("reset", 10_000)
     .floor("reset_backwards", 2000)
@@ -363,6 +394,8 @@ pub fn c10(tier: Tier) -> i32 {
     .floor("next_after_reset_checked", 20_000)
     .floor("reset_through_with_offset_mid_history", 2_000)
     .floor("peek_after_reset_checked", 10_000)
+    .floor("big_input_histories", 200)
+    .floor("reset_to_an_offset_beyond_65535", 1_000)
     .assume("the baseline path (fresh scanner, fresh iterator, offset 0) is the reference; its own tokenization is judged by C01/C04/C05")
     .assume("offsets are on character boundaries or beyond the input length");
     finish(&ctx, res, report)
@@ -575,16 +608,25 @@ pub fn c11_case(rng: &mut Rng, st: &mut Stats) -> CaseOutcome {
 pub fn c11(tier: Tier) -> i32 {
     let ctx = Ctx::new("C11", tier, "exploration");
     let n = ctx.scale(30_000, 2_000_000);
-    let res = run_cases(&ctx, 1, n, |rng, _i, st| c11_case(rng, st));
+    let mut res = run_cases(&ctx, 1, n, |rng, _i, st| c11_case(rng, st));
+    let nbig = ctx.scale(600, 30_000);
+    res.merge(run_cases(&ctx, 2, nbig, |rng, _i, st| crate::checks_scale::c11_big_case(rng, st)));
+    let nhuge = ctx.scale(320, 16_000);
+    res.merge(run_cases_subprocess(&ctx, 3, nhuge, 40));
     let report = Report::new(
-        "random multi-mode configurations, inputs of 0-34 chars with unmatched characters before/between/after tokens, histories of 5-35 operations with peek_n(n), n in {0,1,2,3,7}, at arbitrary points between next / advance_to / set_offset / set_mode / position. Oracles, both over recorded call logs and both using the real next() as reference: (a) twin execution - the same history with all peeks removed must produce identical outputs for every remaining call; (b) prophecy + classification - each peek result must equal what the following next() calls yield on a twin iterator (stopping at n, at the input end, or after a token with a transition in the current mode) and the variant must match (Matches / MatchesReachedEnd / MatchesReachedModeSwitch(target) / NotFound; at exactly n with a switch both variants are accepted; n = 0 accepts Matches([]) or NotFound). Distinct by hash of (configuration, input, history).",
+        "stream 3: peek_n(n) with n in {2^31, 2^33, 2^40, usize::MAX/24+1, isize::MAX, usize::MAX} (peek everything that is left) on inputs of 5-400 words, in worker processes so that an abort is attributed to its case; same prophecy and classification oracle. stream 2: large previews - peek_n(n) with n in {15,16,17,31,32,33,64,255,256,257,1000,4096,20000} on inputs of 600-12 000 words in a two-mode configuration whose switching tokens are rare; every previewed token is confirmed by the following next() calls, the variant by what stopped the preview, and mode/offset must be untouched. stream 1: random multi-mode configurations, inputs of 0-34 chars with unmatched characters before/between/after tokens, histories of 5-35 operations with peek_n(n), n in {0,1,2,3,7}, at arbitrary points between next / advance_to / set_offset / set_mode / position. Oracles, both over recorded call logs and both using the real next() as reference: (a) twin execution - the same history with all peeks removed must produce identical outputs for every remaining call; (b) prophecy + classification - each peek result must equal what the following next() calls yield on a twin iterator (stopping at n, at the input end, or after a token with a transition in the current mode) and the variant must match (Matches / MatchesReachedEnd / MatchesReachedModeSwitch(target) / NotFound; at exactly n with a switch both variants are accepted; n = 0 accepts Matches([]) or NotFound). Distinct by hash of (configuration, input, history).",
     )
     .floor("peek_over_unmatched_char", 3000)
     .floor("peek_reaching_input_end", 5000)
     .floor("peek_reaching_mode_switch", 5000)
     .floor("peek_not_found", 2000)
     .floor("twin_comparisons", 20_000)
-    .floor("peeks_checked", 50_000);
+    .floor("peeks_checked", 50_000)
+    .floor("large_peeks", 1_500)
+    .floor("previews_with_n_beyond_2_pow_31", 300)
+    .floor("previews_longer_than_255_tokens", 300)
+    .floor("large_peek_stopped_by_mode_switch", 50)
+    .floor("large_peek_stopped_by_input_end", 50);
     finish(&ctx, res, report)
 }
 
@@ -1204,9 +1246,11 @@ pub fn c09_case(rng: &mut Rng, st: &mut Stats) -> CaseOutcome {
 pub fn c09(tier: Tier) -> i32 {
     let ctx = Ctx::new("C09", tier, "exploration");
     let n = ctx.scale(30_000, 2_000_000);
-    let res = run_cases(&ctx, 1, n, |rng, _i, st| c09_case(rng, st));
+    let mut res = run_cases(&ctx, 1, n, |rng, _i, st| c09_case(rng, st));
+    let nbig = ctx.scale(32, 640);
+    res.merge(run_cases(&ctx, 2, nbig, |rng, _i, st| crate::checks_scale::c09_big_case(rng, st)));
     let report = Report::new(
-        "configurations drawn from a pool of line-oriented patterns (newline tokens, tokens spanning several lines, tokens ending in a newline, comments, strings, multi-byte letters, with and without a pattern for \\n so that newlines are also skipped as unmatched), inputs rich in line structure (empty lines, \\r\\n, trailing newline, multi-byte characters, unmatched characters), histories of 5-60 operations: next (through WithPositions and through FindMatches + position), position(o) for already scanned character offsets o, set_offset to already scanned offsets (incl. directly after a consumed newline), exhaustion followed by more queries and resets, and peek_n calls in between (on the FindMatches path). Oracle: true positions computed from the input (line = 1 + number of \\n before the offset, column = byte distance to the line start + 1); start positions must be exact, for an offset directly following a \\n both conventions are accepted for end positions and position(). Distinct by hash of (configuration, input, call log).",
+        "stream 2: inputs of up to 1.5 MB with more than 65 536 lines, or with lines longer than 65 536 bytes, or both mixed; a complete scan with every token's start and end position checked, position(o) queries for random scanned offsets, up to three resets to earlier offsets, and 200 queries after exhaustion (same oracle, line index by binary search). stream 1: configurations drawn from a pool of line-oriented patterns (newline tokens, tokens spanning several lines, tokens ending in a newline, comments, strings, multi-byte letters, with and without a pattern for \\n so that newlines are also skipped as unmatched), inputs rich in line structure (empty lines, \\r\\n, trailing newline, multi-byte characters, unmatched characters), histories of 5-60 operations: next (through WithPositions and through FindMatches + position), position(o) for already scanned character offsets o, set_offset to already scanned offsets (incl. directly after a consumed newline), exhaustion followed by more queries and resets, and peek_n calls in between (on the FindMatches path). Oracle: true positions computed from the input (line = 1 + number of \\n before the offset, column = byte distance to the line start + 1); start positions must be exact, for an offset directly following a \\n both conventions are accepted for end positions and position(). Distinct by hash of (configuration, input, call log).",
     )
     .floor("reset", 5000)
     .floor("reset_right_after_newline", 1000)
@@ -1215,6 +1259,9 @@ pub fn c09(tier: Tier) -> i32 {
     .floor("multi_line_token", 1000)
     .floor("token_positions_checked", 50_000)
     .floor("peeks_between_position_checks", 5_000)
+    .floor("inputs_with_more_than_65536_lines", 4)
+    .floor("inputs_with_a_line_longer_than_65536_bytes", 4)
+    .floor("big_input_token_positions_checked", 500_000)
     .assume("columns are byte columns (documented by the crate); offsets are character boundaries not beyond what the iterator has scanned");
     finish(&ctx, res, report)
 }
